@@ -1,4 +1,5 @@
 import XPathV.Lemmas.PullProofs
+import XPathV.Lemmas.Pull2Proofs
 import XPathV.Model.Api
 import XPathV.Lemmas.Facts
 /-!
@@ -57,5 +58,15 @@ theorem clone_is_fresh_and_state_independent (d : Doc) (cfg : ECfg) (cur : Ref) 
     (∀ q2 : PQ, q2.plan = q.plan → q2.clone = q.clone) ∧
     sel (F := F) d cfg q.plan cur = .ok (rem d cfg cur q.clone) :=
   clone_fresh d cfg cur q
+
+/-- **`Clone` on all sixteen iterator types (`Model/Pull2`)**: whatever state the shared query tree
+is in, its clone is in reset state, satisfies the machine invariant, and its stream is the whole
+sequence of the plan — so every `Select`/`Evaluate` of the public API (which clone first, F15)
+starts from scratch.  (`cachedChildQuery.Clone` returns a `childQuery`, as in Go: same sequence.) -/
+theorem clone_is_fresh_all_iterators {F : Type} [NumAlg F] (d : Doc) (cfg : ECfg) (dec : Plan → Ref → Bool)
+    (q : PQ2) (hdec : q.DecOK (F := F) d cfg dec) (c : Ref) :
+    q.clone.evaluate = q.clone ∧ q.clone.Inv d ∧
+      sel (F := F) d cfg q.plan c = .ok (rem2 d cfg dec c q.clone) :=
+  clone_fresh2 d cfg dec q hdec c
 
 end XPathV.Theorems.C04
